@@ -253,7 +253,65 @@ class ExprMixin(object):
         raise Unsupported('string formatting %r at line %s' % (f, getattr(n, 'lineno', '?')))
 
     def ev_BoolOp(self, n, st):
+        b = self.pure_bool(n, st)
+        if b is not None:
+            yield st, BoolV(b)              # comparisons of integer locals joined by and / or / not: one value, no fork per operand
+            return
         yield from self.boolop(n.op, n.values, st)
+
+    def pure_int(self, n, st):
+        """z3 integer term of an expression that cannot raise and has no effect: integer constants, locals bound to plain integers, + - * and
+        unary minus of those; None for anything else"""
+        if isinstance(n, ast.Constant) and isinstance(n.value, int) and not isinstance(n.value, bool):
+            return z3.IntVal(n.value)
+        if isinstance(n, ast.Name):
+            v = st.loc.get(n.id)
+            if isinstance(v, IntV) and not isinstance(v, BoolV) and z3.is_int(v.t):
+                return v.t
+            return None
+        if isinstance(n, ast.BinOp) and isinstance(n.op, (ast.Add, ast.Sub, ast.Mult)):
+            a, b = self.pure_int(n.left, st), self.pure_int(n.right, st)
+            if a is None or b is None:
+                return None
+            return a + b if isinstance(n.op, ast.Add) else a - b if isinstance(n.op, ast.Sub) else a * b
+        if isinstance(n, ast.UnaryOp) and isinstance(n.op, ast.USub):
+            a = self.pure_int(n.operand, st)
+            return None if a is None else -a
+        return None
+
+    def pure_bool(self, n, st):
+        """z3 Bool of a condition built only from comparison chains of pure integer expressions, and / or / not; None otherwise.
+        Python's and / or return operands, which here are all bools, so the value is the boolean combination."""
+        if isinstance(n, ast.BoolOp):
+            parts = [self.pure_bool(v, st) for v in n.values]
+            if any(p is None for p in parts):
+                return None
+            return z3.And(*parts) if isinstance(n.op, ast.And) else z3.Or(*parts)
+        if isinstance(n, ast.UnaryOp) and isinstance(n.op, ast.Not):
+            a = self.pure_bool(n.operand, st)
+            return None if a is None else z3.Not(a)
+        if isinstance(n, ast.Compare):
+            terms = [self.pure_int(x, st) for x in [n.left] + list(n.comparators)]
+            if any(t is None for t in terms):
+                return None
+            out = []
+            for op, a, b in zip(n.ops, terms, terms[1:]):
+                if isinstance(op, ast.Lt):
+                    out.append(a < b)
+                elif isinstance(op, ast.LtE):
+                    out.append(a <= b)
+                elif isinstance(op, ast.Gt):
+                    out.append(a > b)
+                elif isinstance(op, ast.GtE):
+                    out.append(a >= b)
+                elif isinstance(op, ast.Eq):
+                    out.append(a == b)
+                elif isinstance(op, ast.NotEq):
+                    out.append(a != b)
+                else:
+                    return None
+            return z3.And(*out) if len(out) > 1 else out[0]
+        return None
 
     def boolop(self, op, values, st):
         if len(values) == 1:
